@@ -247,7 +247,7 @@ LOCKS = ("std::sync::RwLock = many-readers/one-writer mutual exclusion (new read
 PROPS.update({
     "C02": dict(obs_prop(["EyeballVerif.Props.C02", "EyeballVerif.Props.C02Conc", "EyeballVerif.Lemmas.ConcInv", "EyeballVerif.Lemmas.ConcRun"],
         "operation granularity: c02_parked_registered, c02_pending_nothing_missed, c02_next_write_wakes, c02_close_wakes over every reachable world (OInv); thread granularity: winv_adv — the lock-discipline / registration / "
-        "clone-accounting invariant WInv is preserved by every segment of every thread, for any number of threads — and c02_conc_no_lost_wakeup, c02_conc_notify_wakes, c02_conc_close_wakes",
+        "clone-accounting invariant WInv is preserved by every segment of every thread (poll, set, set_if_not_eq, update, next_now, get, drop, upgrade), for any number of threads — and c02_conc_no_lost_wakeup, c02_conc_notify_wakes, c02_conc_close_wakes, c02_conc_version_change_wakes (whichever call changes the version empties the waker list and has woken everybody registered)",
         [{"name": "obs"}, {"name": "conc"}], extra_tb=[LOCKS]),
         claim=("Lean 4, two layers. (a) Operation granularity: in every world reachable by any call sequence, a subscriber whose poll answered Pending is registered, nothing it has not observed exists, and the next "
                "notifying write through any owner and the drop of the last owner wake it — every parked subscriber, not one (c02_parked_registered, c02_next_write_wakes, c02_close_wakes). (b) Thread granularity: a lock-level "
@@ -291,13 +291,15 @@ PROPS.update({
         technique="Lean 4 proof (partition invariant of an ownership ledger) + instrumented differential runs (exact for eyeball, invariants for the vector crates)",
         design_ref="DESIGN.md §6 C20"),
     "C04": dict(obs_prop(["EyeballVerif.Props.C04"],
-        "c04_mutual_exclusion (guards exclude, from WInv, every reachable state), c04_value_frame (only the store segment changes the value and it records what it replaced), c04_set_chain (along every run the "
-        "stores form a chain from the initial to the final value), c04_reads_current, c04_observed_monotone",
+        "c04_mutual_exclusion (guards exclude, from WInv, every reachable state), c04_value_frame (only the store segment of set / a set_if_not_eq that differs / update changes the value, to exactly the value that call writes), "
+        "c04_store_records_prev (set and set_if_not_eq record the replaced value; an equal set_if_not_eq changes nothing and returns None), c04_set_chain (along every run the "
+        "stores form a chain from the initial to the final value), c04_reads_current, c04_next_now_current, c04_observed_monotone",
         [{"name": "conc"}], extra_tb=[LOCKS]),
         claim=("Lean 4 theorems about the lock-level model, for every number of threads and every schedule: while a writer is in its critical section nobody holds the read lock and nobody else writes, and vice versa "
-               "(c04_mutual_exclusion); only the segment in which a set takes the write lock changes the value, recording the value it replaced as the call's result (c04_value_frame); hence along every run the "
-               "stores are totally ordered and chained — returned previous values + final value = initial value + written values (c04_set_chain); get and the subscriber check read the current value "
-               "(c04_reads_current); observed versions never go backwards (c04_observed_monotone). Each call's effect is one segment between its invocation and response: that is the linearization point. "
+               "(c04_mutual_exclusion); only the segment in which a set, a set_if_not_eq whose value differs, or an update takes the write lock changes the value — to the argument, resp. the closure applied to the current value, so no "
+               "update is lost — and set / set_if_not_eq record the value they replaced as the call's result, an equal set_if_not_eq changes nothing (c04_value_frame, c04_store_records_prev); hence along every run the "
+               "stores are totally ordered and chained — returned previous values + final value = initial value + written values (c04_set_chain); get, next_now and the subscriber check read the current value, next_now "
+               "marking exactly the current version observed (c04_reads_current, c04_next_now_current); observed versions never go backwards while the observable is open (c04_observed_monotone). Each call's effect is one segment between its invocation and response: that is the linearization point. "
                "Tied to the code by forced schedules (a thread released into a held lock must block; results must equal the model's) and free-running rounds with the set-chain oracle; partial: the atomicity of "
                "a segment on real hardware is the lock's guarantee, validated, not proved."),
         technique="Lean 4 proof (mutual-exclusion invariant, frame and chain lemmas over all interleavings) + forced-schedule correspondence on real threads",
